@@ -196,3 +196,21 @@ package mocktikv
 //@   at call(commitLock) assert own: inDom(txnInfos, dec.lock.startTS) && arg_commitTS == txnInfos[dec.lock.startTS] && arg_commitTS > 0 && arg_startTS == dec.lock.startTS && arg_batch == batch && arg_key == currKey
 //@   at call(rollbackLock) assert ownrb: inDom(txnInfos, dec.lock.startTS) && txnInfos[dec.lock.startTS] == 0 && arg_startTS == dec.lock.startTS && arg_batch == batch && arg_key == currKey
 //@   at return assert persisted: result == nil ==> batch.written
+
+// A prewrite request is all or nothing: as soon as one mutation is refused nothing of the request is handed to the
+// database (the locks of the other mutations stay in the discarded batch).
+//@ func (*MVCCLevelDB) Prewrite
+//@   prop C12
+//@   may-panic
+//@   opaque-callee getValue getDB GetOp GetForUpdateTs
+//@   loop 1 invariant flag: forall j int :: 0 <= j && j < len(errs) && errs[j] != nil ==> anyError
+//@   at call(Write) assert clean: !anyError && arg_batch == batch
+//@   at call(prewriteMutation) assert each: arg_batch == batch && arg_mutation == m && arg_startTS == startTS && arg_primary == primary
+
+// A lock scan reports only locks whose start timestamp does not exceed the bound.
+//@ func (*MVCCLevelDB) ScanLock
+//@   prop C12
+//@   may-panic
+//@   opaque-callee newScanIterator Release Valid getDB
+//@   loop 1 invariant bound: forall j int :: 0 <= j && j < len(locks) ==> locks[j] != nil && locks[j].LockVersion <= maxTS
+//@   ensures bound: result1 == nil ==> forall j int :: 0 <= j && j < len(result0) ==> result0[j].LockVersion <= maxTS
